@@ -10,7 +10,7 @@ def stage(ev, vd, d, quick, rnd):
     cfg = os.path.join(d, 'redeq.cfg')
     empty = os.path.join(d, 'redeq_empty.json')
     json.dump({'recs': [], 'chunk': 1}, open(empty, 'w'))
-    consts = 'CONSTANTS\n NV = 3\n LMAX = %d\n GAPS = %s\n' % (3, '{0, 1}' if quick else '{-1, 0, 1}')
+    consts = 'CONSTANTS\n NV = 3\n LMAX = %d\n GAPS %s\n' % (3, '= {0, 1}' if quick else '<- GapsWide')
     open(cfg, 'w').write('SPECIFICATION GenSpec\n' + consts + 'CHECK_DEADLOCK FALSE\n')
     gf = os.path.join(d, 'redeq_gen.json')
     V.tlc(SPF, cfg, env={'REDEQGEN': gf, 'REDEQRECS': empty}, workers=1, timeout=1500, mem='12g')
